@@ -561,6 +561,14 @@ pub fn bld() -> BoxedStrategy<Bld> {
                 f.z = z;
                 z += f.height;
             }
+            // one building in seven has a space without elements of its own (a shaft or patio enclosed by its
+            // neighbours' partitions): it is referred to only as the adjacent space of other spaces' walls
+            let nspaces: usize = floors.iter().map(|f| f.spaces.len()).sum();
+            if salt % 7 == 3 && nspaces >= 2 {
+                if let Some(s) = floors.last_mut().and_then(|f| f.spaces.last_mut()) {
+                    s.walls.clear();
+                }
+            }
             // separate namespaces per kind: HULC itself writes a GLASS-TYPE and a NAME-FRAME both called "Ninguno"
             let (mut glasses, mut frames) = (glasses, frames);
             if salt % 4 == 0 {
@@ -624,6 +632,12 @@ impl Bld {
         let p = p?;
         if names.len() < 2 {
             return None;
+        }
+        // a space without elements of its own is the usual neighbour of the partitions around it
+        if let Some((_, bare)) = self.all_spaces().into_iter().find(|(_, s)| s.walls.is_empty()) {
+            if bare.name != own && p % 2 == 0 {
+                return Some(bare.name.clone());
+            }
         }
         let mut j = pick(p, names.len());
         if names[j] == own {
